@@ -37,7 +37,7 @@ HIST_FILES = {"f.py": "x = 1\n", "g.c": "int x;\n", "h.html": "<p>x</p>\n", "j.j
 def bounds(tier, seed):
     return {"file_types": len(annot.file_types()), "line_modes": ["default", "--single-line", "--multi-line"], "bodies": BODIES,
             "styles": len(annot.styles()), "prefixes": PREFIXES if tier == "thorough" else "3 rotated by seed + default",
-            "year_options": list(YEAROPTS), "templates": ["default", "full", "hash.commented", "fixed-licence (default mode)", "extra-notice (default mode)"], "targets": ["in-file", "--force-dot-license", "--style on an uncommentable type", "--style on a binary file"],
+            "year_options": list(YEAROPTS), "templates": ["default", "full", "hash.commented", "fixed-licence (default mode)", "extra-notice (default mode)", "ignore-block (default mode)"], "targets": ["in-file", "--force-dot-license", "--style on an uncommentable type", "--style on a binary file"],
             "history_menu": list(MENU), "history_files": list(HIST_FILES), "repetitions": 4}
 
 
@@ -61,7 +61,7 @@ def cases(tier, seed):
             for target in ("uncommentable+style", "binary+style"):
                 yield {"k": "style", "style": st, "mode": "default", "prefix": None, "year": y, "tpl": None, "target": target}
     for st in annot.styles():
-        for tpl in ("fixed-licence", "extra-notice"):
+        for tpl in ("fixed-licence", "extra-notice", "ignore-block"):
             for y in YEAROPTS:
                 for target in ("in-file", "dot-license"):
                     yield {"k": "style", "style": st, "mode": "default", "prefix": None, "year": y, "tpl": tpl, "target": target}
